@@ -297,9 +297,31 @@ func contentRangeOnEveryFlush(c *core.Ctx, rule string) {
 		return isS && s == "Content-Range"
 	}
 	isDo := func(in ssa.Instruction) bool { return in == doCall }
+	// a call of the private helper that builds the request counts if every way
+	// through the helper sets the header
+	builder := flushRequestBuilder(flush)
+	builderSets := false
+	if builder != flush && len(builder.Blocks) > 0 {
+		isRet := func(in ssa.Instruction) bool {
+			r, ok := in.(*ssa.Return)
+			return ok && facts.RetErrIsNil(r)
+		}
+		if _, free := facts.ReachesFrom(builder.Blocks[0], 0, isRet, isSetCR, nil); !free {
+			builderSets = true
+		}
+	}
+	sets := func(in ssa.Instruction) bool {
+		if isSetCR(in) {
+			return true
+		}
+		if ci, ok := in.(ssa.CallInstruction); ok && builderSets && ci.Common().StaticCallee() == builder {
+			return true
+		}
+		return false
+	}
 	bad := false
 	if len(flush.Blocks) > 0 {
-		if _, reach := facts.ReachesFrom(flush.Blocks[0], 0, isDo, isSetCR, nil); reach {
+		if _, reach := facts.ReachesFrom(flush.Blocks[0], 0, isDo, sets, nil); reach {
 			bad = true
 		}
 	}
